@@ -328,28 +328,28 @@ Section Generic.
 
   (* ---- C04: balance of one bisection ----
      [lo], [hi]: (axis coordinate, weight) of the two sides of a node.
-     The "distinct coordinate values" are the classes of the equivalence
-     `neither is below the other`; a class of total weight 0 still counts as
-     one value. *)
+     "Moving the cut past one more distinct coordinate value": past the
+     coordinate value c of some point of the other side, together with every
+     point of that side that is not beyond c.  For the SMALLEST value of the
+     high side this adds exactly the group of points sharing that value (a
+     group of total weight 0 still counts as a value); for non-negative
+     weights the other values follow from it. *)
   Definition wsum (l : list (C * Z)) : Z := sumZ (map snd l).
-  Definition eqv (x y : C) : bool := negb (ltb x y) && negb (ltb y x).
-  (* weight of the class of the smallest coordinate of hi / largest of lo *)
-  Definition first_group (hi : list (C * Z)) : Z :=
-    match hi with
-    | [] => 0
-    | (y, _) :: t => let m := cmin y (map fst t) in wsum (filter (fun p => eqv (fst p) m) hi)
-    end.
-  Definition last_group (lo : list (C * Z)) : Z :=
-    match lo with
-    | [] => 0
-    | (x, _) :: t => let M := cmax x (map fst t) in wsum (filter (fun p => eqv (fst p) M) lo)
-    end.
+  (* weight of the points of [hi] not above c / of [lo] not below c *)
+  Definition upto (hi : list (C * Z)) (c : C) : Z := wsum (filter (fun q => negb (ltb c (fst q))) hi).
+  Definition from (lo : list (C * Z)) (c : C) : Z := wsum (filter (fun q => negb (ltb (fst q) c)) lo).
 
   Definition balanced_or_bracket (lo hi : list (C * Z)) : Prop :=
     let wl := wsum lo in let tot := wsum lo + wsum hi in
     within_tol wl tot = true \/ 2 * wl = tot
-    \/ (2 * wl < tot /\ 2 * (wl + first_group hi) >= tot)
-    \/ (2 * wl > tot /\ 2 * (wl - last_group lo) <= tot).
+    \/ (2 * wl < tot /\ forall y, In y hi -> 2 * (wl + upto hi (fst y)) >= tot)
+    \/ (2 * wl > tot /\ forall x, In x lo -> 2 * (wl - from lo (fst x)) <= tot).
+
+  (* the group at the smallest coordinate of hi / the largest of lo *)
+  Definition first_group (hi : list (C * Z)) : Z :=
+    match hi with [] => 0 | (y, _) :: t => upto hi (cmin y (map fst t)) end.
+  Definition last_group (lo : list (C * Z)) : Z :=
+    match lo with [] => 0 | (x, _) :: t => from lo (cmax x (map fst t)) end.
 
   Definition check_split (lo hi : list (C * Z)) : bool :=
     let wl := wsum lo in let tot := wsum lo + wsum hi in
@@ -357,9 +357,10 @@ Section Generic.
     || ((2 * wl <? tot) && (2 * (wl + first_group hi) >=? tot))
     || ((2 * wl >? tot) && (2 * (wl - last_group lo) <=? tot)).
 
-  (* every internal node of the tree read off the path codes *)
-  Definition bitem := (list C * Z * N)%type.   (* coordinates, weight, path code *)
-  Fixpoint axis_w (a : nat) (its : list bitem) : option (list (C * Z)) :=
+  (* C04 (DESIGN §13): the C03 tree whose every internal node is balanced.
+     Items: coordinates, weight, id. *)
+  Definition witem := (list C * Z * N)%type.
+  Fixpoint axis_w (a : nat) (its : list witem) : option (list (C * Z)) :=
     match its with
     | [] => Some []
     | (cs, w, _) :: t =>
@@ -368,42 +369,54 @@ Section Generic.
       | _, _ => None
       end
     end.
+  Definition wp (x : witem) : pitem := (fst (fst x), snd x).
 
-  Inductive EveryNode (D : nat) (P : list (C * Z) -> list (C * Z) -> Prop)
-    : nat -> nat -> list bitem -> Prop :=
-  | en_leaf a its : EveryNode D P O a its
-  | en_empty d a : EveryNode D P d a []
-  | en_node d a its lo hi cl ch :
-      its <> [] ->
-      lo = filter (fun it => negb (N.testbit (snd it) (N.of_nat d))) its ->
-      hi = filter (fun it => N.testbit (snd it) (N.of_nat d)) its ->
-      axis_w a lo = Some cl -> axis_w a hi = Some ch -> P cl ch ->
-      EveryNode D P d ((a + 1) mod D)%nat lo -> EveryNode D P d ((a + 1) mod D)%nat hi ->
-      EveryNode D P (S d) a its.
+  Inductive BalTree (D : nat) : nat -> nat -> list witem -> Prop :=
+  | bal_leaf d a its : same_id (map wp its) -> BalTree D d a its
+  | bal_node d a lo hi cl ch :
+      (forall x y, In x lo -> In y hi -> below a (wp x) (wp y)) ->
+      ids_disjoint (map wp lo) (map wp hi) ->
+      axis_w a lo = Some cl -> axis_w a hi = Some ch -> balanced_or_bracket cl ch ->
+      BalTree D d ((a + 1) mod D)%nat lo -> BalTree D d ((a + 1) mod D)%nat hi ->
+      BalTree D (S d) a (lo ++ hi).
 
-  Fixpoint check_nodes (D : nat) (d : nat) (a : nat) (its : list bitem) : bool :=
-    match d, its with
-    | O, _ => true
-    | _, [] => true
-    | S d', _ =>
+  (* checker: the tree read off the path codes (as in check_tree), every
+     node with a non-empty item set tested with check_split; weights must be
+     non-negative *)
+  Fixpoint check_nodes (D : nat) (d : nat) (a : nat) (its : list witem) : bool :=
+    match d with
+    | O => match its with [] => true | x :: t => forallb (fun y => (snd y =? snd x)%N) t end
+    | S d' =>
       let lo := filter (fun it => negb (N.testbit (snd it) (N.of_nat d'))) its in
       let hi := filter (fun it => N.testbit (snd it) (N.of_nat d')) its in
       match axis_w a lo, axis_w a hi with
       | Some cl, Some ch =>
-        check_split cl ch && check_nodes D d' ((a + 1) mod D)%nat lo
-        && check_nodes D d' ((a + 1) mod D)%nat hi
+        sep (map fst cl) (map fst ch) && check_split cl ch
+        && check_nodes D d' ((a + 1) mod D)%nat lo && check_nodes D d' ((a + 1) mod D)%nat hi
       | _, _ => false
       end
     end.
 
-  Definition bitems (off : N) (pts : list (list C)) (ws : list Z) (ids : list N) : list bitem :=
+  Definition witems (off : N) (pts : list (list C)) (ws : list Z) (ids : list N) : list witem :=
     combine (combine pts ws) (map (fun i => (i + off)%N) ids).
 
-  (* the offset of the leaf numbering is the one [check_bisect] accepts first;
-     here it is an argument (the run glue searches it) *)
-  Definition check_balance (D k : nat) (off : N) (pts : list (list C)) (ws : list Z) (ids : list N) : bool :=
+  Fixpoint try_balance (n : nat) (off : N) (D k : nat) (pts : list (list C)) (ws : list Z) (ids : list N) : bool :=
+    match n with
+    | O => false
+    | S n' =>
+      let its := witems off pts ws ids in
+      (forallb (fun it => (snd it <? 2 ^ N.of_nat k)%N) its && check_nodes D k 0%nat its)
+      || try_balance n' (off + 1)%N D k pts ws ids
+    end.
+
+  (* some offset of the leaf numbering gives a bisection tree (C03) all of
+     whose nodes are balanced *)
+  Definition check_balance (D k : nat) (pts : list (list C)) (ws : list Z) (ids : list N) : bool :=
     Nat.eqb (length pts) (length ids) && Nat.eqb (length ws) (length ids)
-    && check_nodes D k 0%nat (bitems off pts ws ids).
+    && forallb (fun p => Nat.eqb (length p) D && forallb valid p) pts
+    && forallb (fun w => 0 <=? w) ws
+    && forallb (fun i => (i <? 2 ^ N.of_nat k)%N) ids
+    && try_balance (Nat.pow 2 k) 0%N D k pts ws ids.
 End Generic.
 
 Arguments mkitem {C}.
@@ -491,21 +504,6 @@ Definition seq_sched : N -> nat -> stree := fun _ _ => SLeaf.
 Definition check_bisect32 (D k : nat) (pts : list (list spec_float)) (ids : list N) : bool :=
   check_bisect spec_float flt f32_valid D k (map (map f64_to_f32) pts) ids.
 
-(* C04: some offset of the leaf numbering gives a bisection tree (C03) all of
-   whose nodes are balanced *)
-Fixpoint try_balance (n : nat) (off : N) (D k : nat) (tol : spec_float)
-         (pts : list (list spec_float)) (ws : list Z) (ids : list N) : bool :=
-  match n with
-  | O => false
-  | S n' =>
-    let its := with_off spec_float off pts ids in
-    (forallb (fun it => (snd it <? 2 ^ N.of_nat k)%N) its && check_tree spec_float flt D k 0%nat its
-     && check_balance spec_float flt (tol_test tol) D k off pts ws ids)
-    || try_balance n' (off + 1)%N D k tol pts ws ids
-  end.
-
 Definition check_balance32 (D k : nat) (tol : spec_float) (pts : list (list spec_float))
            (ws : list Z) (ids : list N) : bool :=
-  let p32 := map (map f64_to_f32) pts in
-  forallb (fun p => Nat.eqb (length p) D && forallb f32_valid p) p32
-  && try_balance (Nat.pow 2 k) 0%N D k tol p32 ws ids.
+  check_balance spec_float flt (tol_test tol) f32_valid D k (map (map f64_to_f32) pts) ws ids.
